@@ -184,6 +184,15 @@ def gen_enc(rng, bucket):
             m = rng.choice(MODES_ODD + MODES_OK)
             es.append({"mode": m, "name": b"m%d" % k, "hash": hash_for(rng, m)})
             es[-1]["name"] = es[-1]["name"].hex()
+    elif bucket == "enc-prefix":
+        # a name and its "name<byte>" neighbours around '/': where a directory sorts differently from everything else
+        base = rng.choice([b"a", b"foo", b"foo.bar", b"x.go"])
+        m = rng.choice([0o40000, 0o160000, 0o100644, 0o120000, 0o160000])
+        es = [{"mode": m, "name": base.hex(), "hash": hash_for(rng, m)}]
+        for suf in rng.sample([b".x", b"-", b"0", b".bar", b" ", b"+", b"/x", b"~", b".", b"_"], rng.randrange(1, 5)):
+            m2 = rng.choice(MODES_OK)
+            es.append({"mode": m2, "name": (base + suf).hex(), "hash": hash_for(rng, m2)})
+        es += rnd_entries(rng, rng.randrange(0, 3), [b"A", b"b", b"z", b"0"])
     elif bucket == "enc-dups":
         base = rng.choice([b"foo", b"a", b"foo.bar"])
         es.append({"mode": 0o100644, "name": base.hex(), "hash": BLOB})
@@ -242,7 +251,7 @@ class Main(Suite):
 
     def gen(self, rng, n, tier):
         buckets = [(3, "dec-valid"), (2, "dec-unsorted"), (2, "dec-dups"), (4, "dec-modes"), (3, "dec-names"), (4, "dec-truncated"), (1, "dec-random"),
-                   (4, "enc-valid"), (6, "enc-names"), (3, "enc-symlink-dotfiles"), (3, "enc-modes"), (2, "enc-dups"), (3, "enc-unsorted"),
+                   (3, "enc-valid"), (4, "enc-prefix"), (6, "enc-names"), (3, "enc-symlink-dotfiles"), (3, "enc-modes"), (2, "enc-dups"), (3, "enc-unsorted"),
                    (1, "enc-null"), (1, "enc-long")]
         out = []
         for _ in range(n):
